@@ -61,6 +61,8 @@ def Op.handles : Op → List Nat
   | .drop h => [h]
   | .debug h => [h]
   | .hash _ _ _ _ _ => []
+  | .writes h _ => [h]
+  | .hashOne _ _ => []
 
 def Op.isReset : Op → Bool
   | .reset => true
@@ -101,6 +103,8 @@ theorem step_local (env : Env) (w1 w2 : World) (op : Op) (hr : op.isReset = fals
     Op.isReset] at agree hr <;> simp only [step, Op.handles, List.mem_cons, List.not_mem_nil, or_false, forall_eq_or_imp, forall_eq]
   case reset => cases hr
   case hash => split <;> simp
+  case hashOne => split <;> simp
+  case writes h ws => rw [agree]; split <;> simp [World.get_put, agree]
   case new h sel force key => split <;> simp [World.get_put, World.get_del]
   case default h sel => split <;> simp [World.get_put, World.get_del]
   case restore h sel force c => split <;> simp [World.get_put, World.get_del]
